@@ -72,6 +72,51 @@ example : InRange table Molli.Gen.Mol2Types.cycleWitness ∧
     (typeCycle Molli.Gen.Mol2Types.cycleWitness).map table.emitStr ≠ some (table.emitStr Molli.Gen.Mol2Types.cycleWitness) := by
   decide +kernel
 
+/-! ### the read of a text does not depend on the history of the process
+
+`Atom.set_mol2_type` is NOT a function of the token alone: tokens such as plain `C`, `N.pl3`, `X.th`, `X.oh` leave
+the atom type and/or the geometry of the atom they are applied to untouched (`set_mol2_type_depends_on_prior_state`).
+The reader is nevertheless a function of the text, because it applies every token to a FRESH atom
+(`read_types_from_fresh_atom`): in the model nothing else can reach an atom's typing state. On the implementation
+side this is tied by the history differential of `harness/c07.py` (tokens applied to atoms pre-set to other states,
+texts read in different orders, the same texts read in a fresh process). -/
+
+/-- every atom a read returns got its typing state by applying its type token to the state of a fresh `Atom()` —
+never to a state left behind by an earlier call or another atom -/
+theorem read_types_from_fresh_atom (wc : Bool) (r : Rec) (a : AtomV) (h : buildAtom table wc r = .ok a) :
+    ∃ ty, fieldAt r 5 = .ok ty ∧ table.setMol2Type table.dflt (codesOf ty) = some a.st := by
+  unfold buildAtom at h
+  split at h
+  · cases hty : fieldAt r 5 with
+    | error e => rw [hty] at h; simp at h
+    | ok ty =>
+      rw [hty] at h
+      dsimp only at h
+      cases hacc : table.acceptStr ty with
+      | none => rw [hacc] at h; simp at h
+      | some st =>
+        rw [hacc] at h
+        dsimp only at h
+        refine ⟨ty, rfl, ?_⟩
+        simp only [TypeTable.acceptStr] at hacc
+        rw [hacc]
+        have hst : a.st = st := by
+          repeat' split at h
+          all_goals first
+            | (simp at h; done)
+            | (simp only [Except.ok.injEq] at h; rw [← h])
+        rw [hst]
+  · simp at h
+
+/-- the token `C` keeps the atom type of the atom it is applied to: on an aromatic carbon it yields an aromatic
+carbon, on a fresh atom a regular one — so remembering "what `C` means" from an earlier call would change later reads -/
+theorem set_mol2_type_depends_on_prior_state :
+    table.setMol2Type ⟨table.sp.eC, table.sp.tAromatic, table.dflt.g⟩ [67] =
+      some ⟨table.sp.eC, table.sp.tAromatic, table.dflt.g⟩ ∧
+    table.setMol2Type table.dflt [67] = some ⟨table.sp.eC, table.dflt.t, table.dflt.g⟩ ∧
+    table.sp.tAromatic ≠ table.dflt.t := by
+  decide +kernel
+
 /-! ### text level -/
 
 /-- the generated obligations, collected -/
